@@ -238,7 +238,8 @@ def catalogue():
 
 def run(ctx):
     ctx.code()
-    res0 = ctx.tlc("Purity", "MC_Purity.cfg", workers=8, timeout=600)
+    res0 = ctx.tlc("Purity", "MC_Purity.cfg", timeout=600, coverage=True)
+    ctx.require_actions(res0, ["Alloc", "Call"], "Purity")
     if res0.violated:
         raise Machinery("Purity.tla violates its own properties")
     ctx.part("design_model", states=res0.distinct, properties=["Frame", "Deterministic"])
@@ -304,7 +305,7 @@ def run(ctx):
     with open(path, "w") as f:
         for e in events:
             f.write(json.dumps(e) + "\n")
-    res = ctx.tlc("PurityTrace", "MC_PurityTrace.cfg", workers=1, timeout=1800, heap="6g", env={"TRACE_FILE": str(path)})
+    res = ctx.tlc("PurityTrace", "MC_PurityTrace.cfg", timeout=1800, heap="6g", env={"TRACE_FILE": str(path)})
     if not res.tuples("VALIDATED"):
         raise Machinery("PurityTrace did not complete:\n" + res.out[-2500:])
     consumed = {int(line.strip("<>").split(",")[1]) for line in res.tuples("OK")}
@@ -328,6 +329,30 @@ def run(ctx):
             pass        # second call of a function that already modified its argument: reported once
         else:
             ctx.violation("%s:unexplained" % name, "call line rejected by PurityTrace", {"function": name, "layout": layout})
+    # binding demonstration: (a) a post-call digest of an argument, (b) the result digest of a repeated call corrupted
+    import copy
+    calls = [i for i, e in enumerate(events) if e["ev"] == "call" and (i + 1) in consumed and e["post"]]
+    seen, second = set(), None
+    for i in calls:
+        key = (events[i]["fn"], tuple(events[i]["args"]))
+        if key in seen and second is None:
+            second = i
+        seen.add(key)
+    if not calls or second is None:
+        raise Machinery("PurityTrace: binding demonstration found no call to corrupt")
+    first = calls[len(calls) // 2] if calls[len(calls) // 2] != second else calls[0]
+    bad = copy.deepcopy(events)
+    bad[first]["post"][0] = "0" * len(str(bad[first]["post"][0]))
+    bad[second]["result"] = "f" * max(4, len(str(bad[second]["result"])))
+    cpath = str(path) + ".corrupt"
+    with open(cpath, "w") as f:
+        for e in bad:
+            f.write(json.dumps(e) + "\n")
+    resb = ctx.tlc("PurityTrace", "MC_PurityTrace.cfg", timeout=1800, heap="6g", env={"TRACE_FILE": cpath})
+    okb = {int(line.strip("<>").split(",")[1]) for line in resb.tuples("OK")}
+    if (first + 1) in okb or (second + 1) in okb:
+        raise Machinery("PurityTrace: binding demonstration - corrupted call lines %s accepted" % [k for k in (first + 1, second + 1) if k in okb])
+    ctx.part("binding_demo_PurityTrace", corrupted_lines=[first + 1, second + 1], rejected=True)
     ctx.traces += len(events)
     ctx.sample({"catalogue entry": {"function": cat[0][0], "layouts": LAYOUTS, "calls_each": 2}})
     ctx.sample({"event": events[2]})
